@@ -14,6 +14,7 @@ import (
 // mux chooses the family driver by the first operation of the behaviour.
 type mux struct {
 	p   packDrv
+	bl  blDrv
 	cur interface {
 		core.Driver
 		core.Classifier
@@ -23,6 +24,9 @@ type mux struct {
 
 func (m *mux) Reset(env *core.Env, b *core.Behaviour) error {
 	m.cur = &m.p
+	if len(b.Steps) > 0 && (b.Steps[0].Op() == "Row" || b.Steps[0].Op() == "DelayChain") {
+		m.cur = &m.bl
+	}
 	return m.cur.Reset(env, b)
 }
 func (m *mux) Apply(s core.Step) (any, any, error) { return m.cur.Apply(s) }
@@ -44,5 +48,29 @@ func main() {
 		Name:      "pack",
 		NewDriver: func() core.Driver { return &mux{} },
 		Recorders: map[string]core.Recorder{"rows": recordRows},
+		Extra: map[string]func(env *core.Env, args []string) int{
+			"bldebug": func(env *core.Env, args []string) int {
+				r, err := getRig("main", 4)
+				if err != nil {
+					println(err.Error())
+					return 2
+				}
+				for key := 711; key <= 715; key++ {
+					for _, ty := range []int32{types.SECP256K1, types.EncodeSignID(types.SECP256K1, 2), ethSigTy()} {
+						tx := r.coinsTxUnsigned(btcAddr(41), btcAddr(41), 1)
+						r.sign(tx, key, ty)
+						acc := r.mock.GetAccount(r.tip.StateHash, tx.From())
+						println(key, "sigTy", ty, "from", tx.From(), "ethAddr", ethAddr(key), "balance", acc.GetBalance())
+					}
+				}
+				return 0
+			},
+			"forks": func(env *core.Env, args []string) int {
+				for k, v := range allForks() {
+					println(k, v)
+				}
+				return 0
+			},
+		},
 	})
 }
